@@ -100,8 +100,10 @@ def run(tier):
     v.cov['samples'] += [dict(kind='E1 cases from TLC', events=[c for c in cases if c.startswith('bsinkn 0')][40:42] + [c for c in cases if c.startswith('bdec 4')][30:31] + [c for c in cases if c.startswith('menc 3')][14:16])]
     ops = sorted(set(c.split(' ')[0] for c in cases))
     v.notes['e1'] = dict(cases=len(cases), per_op={o: sum(1 for c in cases if c.startswith(o + ' ')) for o in ops})
-    rnd = random.Random(vf.seed())
-    vf.trace_flow(v, 'LengthPrefixTrace.tla', 'LengthPrefixTrace.cfg', 'lenp', e2(rnd, 64 if quick else 500, 1200 if quick else 6000), 'lenptrace', flavours=3)
+    hs = []
+    for rnd in vf.rounds(tier, 6):
+        hs += list(e2(rnd, 64 if quick else 500, 1200 if quick else 6000))
+    vf.trace_flow(v, 'LengthPrefixTrace.tla', 'LengthPrefixTrace.cfg', 'lenp', hs, 'lenptrace', flavours=3)
     v.cov['rule'] = ('E0/E1: all cases of the enumerated family (buffer states up to MaxSize, chunk lists up to MaxChunks, length table, capacities around the length, '
                      'fragment sizes); distinct_nontrivial = cases whose prescribed outcome is not a refusal. E2: random states and lengths up to several thousand octets.')
     v.cov['exhaustive'] = True
